@@ -125,6 +125,10 @@ func (r *Reader) Meta() *indexmeta.Meta {
 	return r.meta
 }
 
+// maxHeaderSize is the size of a header with the largest possible metadata and every prefix present:
+// magic, version, metadata, number of prefixes, (prefix, offset) pairs.
+const maxHeaderSize = 8 + 8 + (1 + indexmeta.MaxNumKVs*(1+indexmeta.MaxKeySize+1+indexmeta.MaxValueSize)) + 8 + (math.MaxUint16+1)*(2+8)
+
 func readHeaderSize(reader io.ReaderAt) (int64, error) {
 	// read header size:
 	headerSizeBuf := make([]byte, 4)
@@ -140,6 +144,9 @@ func readHeader(reader io.ReaderAt) (*bucketToOffset, *indexmeta.Meta, int64, er
 	headerSize, err := readHeaderSize(reader)
 	if err != nil {
 		return nil, nil, 0, fmt.Errorf("failed to read header size: %w", err)
+	}
+	if headerSize > maxHeaderSize {
+		return nil, nil, 0, fmt.Errorf("header size %d exceeds max %d", headerSize, maxHeaderSize)
 	}
 	// read header bytes:
 	headerBuf := make([]byte, headerSize)
